@@ -33,7 +33,7 @@ def build_problem(rng, cls, nmax, force_periodic=None):
     else:
         per = [k for k in force_periodic if k in capable]
     for _ in range(50):
-        spec = gen.gen_bc_spec(rng, g, periodic_axes=per)
+        spec = gen.gen_bc_spec(rng, g, periodic_axes=per, robin_signs='wellposed' if rng.random() < 0.7 else 'any')
         if gen.bc_nonsingular(g, spec):
             break
     return faces, meta, g, spec
